@@ -68,6 +68,7 @@ def run(chk):
     sh_stream = common.stage_histories(chk, ntraces=32 if q else 1500, steps=10 if q else 40,
                                        nvars_choices=[3, 4, 4], profile='stream', tag='st')
     chk.validate('TraceSweep', 'TraceSweep.cfg', sw)
+    sh_stream += common.stage_wide(chk, 'expr')
     chk.validate('TraceBDD', 'TraceBDD.cfg', sh_stream)
     common.sweep_canary(chk, sw[0], 'row.expr', 'expr.meaning')
     chk.assumptions = [
